@@ -158,9 +158,11 @@ def ORACLE(v, scn, out):
     if what == 'last' and not reg1:
         bad.append('registry emptied')
     reds = []
+    has_proxy = False
     if msgs:
         inner = msgs[0]['msg']['wasm']['execute']['msg']
         if 'redelegate_proxy' in inner:
+            has_proxy = True
             reds = inner['redelegate_proxy']['redelegations']
             if what == 'src' and inner['redelegate_proxy']['src_validator'] != target:
                 bad.append('wrong source')
@@ -174,9 +176,9 @@ def ORACLE(v, scn, out):
     fd = (scn['querier'].get('full_delegations') or [{}])[0]
     has = bool(fd.get('present', False))
     amount, can = int(fd.get('amount', 0)), int(fd.get('can_redelegate', 0))
-    if what == 'whole' and reds and total != amount:
+    if what == 'whole' and has_proxy and total != amount:
         bad.append('redelegates %d of the %d delegated on the removed validator' % (total, amount))
-    if what == 'when' and reds and not (has and can >= amount):
+    if what == 'when' and has_proxy and not (has and can >= amount):
         bad.append('redelegation although the chain reports delegation=%r can_redelegate=%d amount=%d' % (has, can, amount))
     if what == 'left_behind' and not msgs and has and can >= amount and amount > 0:
         bad.append('a redelegatable delegation of %d is left on the removed validator' % amount)
